@@ -933,6 +933,9 @@ func (pc *PartitionContext) allocate(result *objects.AllocationResult) *objects.
 					zap.String("appID", appID),
 					zap.String("allocationKey", allocKey),
 					zap.Error(err))
+				// the ask is gone: the node removal found the new allocation on the node and released it like all
+				// other allocations on the node. That removal has discounted the allocation, count it.
+				pc.unwindRemovedAppAllocation(result)
 			}
 		}
 		return nil
@@ -995,10 +998,10 @@ func (pc *PartitionContext) allocate(result *objects.AllocationResult) *objects.
 	return result
 }
 
-// unwindRemovedAppAllocation cleans up after an allocation that was made while the application was removed from the
-// partition. The application removal releases the new allocation with all the others of the application: the
-// application, queue, node and user trackers are updated, and the allocation counters of the partition are decreased.
-// Count the allocation here as the removal has, or will, discount it.
+// unwindRemovedAppAllocation cleans up after an allocation that was made while the application, or the node, was
+// removed from the partition. The removal releases the new allocation with all the others of the application or node:
+// the application, queue, node and user trackers are updated, and the allocation counters of the partition are
+// decreased. Count the allocation here as the removal has, or will, discount it.
 // NOTE: this is a lock free call. It must NOT be called holding the PartitionContext lock.
 func (pc *PartitionContext) unwindRemovedAppAllocation(result *objects.AllocationResult) {
 	if result.ResultType != objects.Allocated && result.ResultType != objects.AllocatedReserved {
